@@ -926,6 +926,28 @@ def tamper_case(target, label):
         if g is not None and g not in groups and (accepted or after['established'] and target == 'INIT'):
             bad.append(('went-on-after-unoffered-group', 'A completed the exchange after INVALID_KE_PAYLOAD naming '
                                                           'group %d, which it never offered' % g))
+    # ... and leaves no trace in what the connection offers next: another ACQUIRE, and the first request of the same exchange
+    # type that A sends carries the offer of the policy again (same proposals, KE in the same group as the first time)
+    if w.endpoints['A'].alive:
+        mark = len(w.sent_log)
+        tap.step(('acquire', 'A', 0, 0))
+        for _ in range(30):
+            if not w.net:
+                break
+            tap.step(('deliver', w.net[0].id))
+        for x in w.sent_log[mark:]:
+            if x.sender != 'A':
+                continue
+            m = open_datagram(x.data, tap.keys_for(x))
+            v = view(m) if m is not None and not m['resp'] else None
+            if v is None or v['exch'] != req['exch'] or not v['sa']:
+                continue
+            strip = lambda props: [(p[0], p[1], tuple(p[3])) for p in props]   # noqa (the SPI of a CHILD proposal is fresh)
+            if strip(v['sa']) != strip(req['sa']) or v['ke'] != req['ke']:
+                bad.append(('next-offer-differs', 'after this response the next negotiation of the connection offers %s with KE '
+                            'group %r; the policy (and the first request) say %s with KE group %r' % (
+                                [show(p[3]) for p in v['sa']], v['ke'], [show(p[3]) for p in req['sa']], req['ke'])))
+            break
     outcome = (target, must_refuse, accepted, tuple(after['states']), len(after['kids']), len(later))
     return dict(outcome=outcome, must_refuse=must_refuse,
                 found=[('tamper:%s:%s:%s' % (target, label, e), text) for e, text in bad])
